@@ -13,7 +13,7 @@ import tracemalloc
 
 from hypothesis import strategies as st
 
-from vlib.runner import good, bad, HarnessError
+from vlib.runner import good, bad, HarnessError, BaselineBroken
 from vlib.det import DET
 from vlib import scenario as sc
 from vlib import tap
@@ -146,7 +146,7 @@ def honest(name):
         DET.reseed("C08", name)
         p = sc.connect(client, server, prepare=prepare)
         if not p.both_ok:
-            raise HarnessError("honest %s failed: %r %r" % (name, p.co, p.so))
+            raise BaselineBroken("flavour:" + name, "%r %r" % (p.co, p.so))
         sc.do_write(p, "s", b"x")
         sc.read_all(p, "c")
         _honest[name] = log
@@ -433,7 +433,7 @@ def raw_seed(target):
         DET.reseed("C08raw")
         p = sc.connect(client, server)
         if not p.both_ok:
-            raise HarnessError("raw seed handshake failed")
+            raise BaselineBroken("raw-seed", "%r %r" % (p.co, p.so))
         _raw_seed["server_first"] = p.link.wire("c")[:600]
         _raw_seed["client_after_hello"] = p.link.wire("s")[:1500]
     return _raw_seed[target]
@@ -483,7 +483,7 @@ def check_raw(case):
                                   "tls13")
         p = sc.connect(client, server)
         if not p.both_ok:
-            raise HarnessError("raw established handshake failed")
+            raise BaselineBroken("raw-established", "%r %r" % (p.co, p.so))
         side = "s"
         base = prg(b"estab", 64)
         data = apply_edits(base, case["edits"]) if case.get("base", True) \
